@@ -19,6 +19,12 @@ CHECKS = {
          "Stored allowances of all subkeys are read back after every call and compared with exact coin-by-coin deduction, expiry rejection at the boundary block/time, saturating decrease, restart after expiry, cumulative spent<=granted, and non-interference between subkeys.", TB),
  "C09": ("cwv-direct", "online reference-model monitor: independent per-address timeline (value at the start of block h) compared with Member/TotalWeight at boundary heights, ListMembers and raw-key reads after every call",
          "After every cw4-group call ~20 heights x all addresses are queried (0, instantiation-1/0/+1, change heights -1/0/+1, now, now+1, far future) together with totals, the paged listing and the raw TOTAL_KEY / member_key reads, and compared with the monitor's own change history; several changes per block, re-adds and same-block updates are generated on purpose.", TB),
+ "C10": ("cwv-app", "balance-ledger and reference-model monitor on cw4-stake inside a cw-multi-test App with the real bank / cw20-base as stake token; claims checked at maturity -1/0/+1",
+         "After every call Staked, Claims, Member, TotalWeight and the REAL token balances of the contract and all users are compared with an independent ledger: full backing (holdings = stakes + unreleased claims + donations), own-bond/unbond only, foreign tokens refused, Claim pays exactly the matured claims once, weight = stake div tokens_per_weight in u128 (a wrapped value is a violation), membership iff stake >= min_bond.", TBA),
+ "C11": ("cwv-app", "conservation monitor over real token holdings vs reported channel balances plus a per-channel escrowed/paid-out ledger, driven through an IBC shim (real ibc_* entry points, real reply) with a MALICIOUS counterparty model and payout fault injection",
+         "Holdings >= sum of channel balances per genuine token and paid-out <= escrowed per (channel, token) after every step; forged packets (foreign denom, other port/channel, above outstanding, garbage, unknown channel) must release nothing; failed payouts/refunds must leave escrow untouched.", TBA),
+ "C12": ("cwv-app", "ledger monitor (sent / failed-or-timed-out / redeemed per channel and denomination) against Channel{id}, error-ack-no-change check over full state snapshots, decoded SendPacket log, including synthesised v1/v2 storage layouts carried through the real migrate",
+         "Books = ledger after every step with an honest counterparty; every error acknowledgement is compared field-by-field with the pre-state (channel balances, escrow, all user balances); the receive path must never return Err or abort; every accepted transfer's packet is decoded (amount<=u64, denom, true sender, receiver, memo, requested/default timeout). The v2-migration in-flight defect is a recorded known finding.", TBA),
  "C13": ("cwv-direct", "online reference-model monitor ((minter, cap, renounced) model) over seeded random minter-heavy histories on cw20-base",
          "Minter and TokenInfo are compared with an independent model after every call: only the current minter mints, never beyond the cap, cap survives hand-overs, former minters and everyone after renounce are refused forever, the current minter is never refused a hand-over.", TB),
  "C14": ("cwv-direct", "online invariant + message-log monitor: Admin/Hooks/members compared before/after every call; every hook notification in Response.messages decoded and checked against the true weights before/after",
@@ -35,6 +41,8 @@ CHECKS = {
          "Ballot weights, one-ballot-per-address, zero-weight and late-joiner refusal, vote refusal after expiry / on executed proposals and total_weight = sum of the snapshot are checked after every step on both multisigs; the same-block-group-change defect of cw3-flex is a recorded known finding.", TBA),
  "C15": ("cwv-app", "balance-ledger monitor: deposit-token balances of every actor and the multisig compared before/after each call with a per-proposal deposit ledger; bounded recoverability probe (Close by a stranger after all expiries) at the end of each history",
          "Exact take on Propose (native funds variants, cw20 allowance variants), refund only to the proposer, at most once, on Execute always and on Close iff configured; multisig holdings = outstanding deposits; recoverability restated as a bounded check; the voted-down-proposal defect is a recorded known finding.", TBA),
+ "C18": ("cwv-app", "governance monitor: ListAllowed/Config/Admin compared before/after every step (authority, monotone loosening), plus an event-log check of the gas_limit attached to every payout sub-message logged by the IBC shim",
+         "Only governance (or the chain admin via migrate) changes the allow list, default gas limit or admin; entries never disappear, limits never fall, unlimited stays unlimited, the default is never unset; cw20 transfers need an entry or a default; each payout carries the token's entry (even None) else the default; checked across v1/v2 migrations too.", TBA),
  "C19": ("cwv-direct", "online consistency monitor of three query views over seeded random histories, including synthesised pre-0.14 storage carried through the real migrate",
          "After every call the Allowance point query, paged AllAllowances and paged AllSpenderAllowances are compared for all pool pairs; a third of the histories start from a legacy layout (versions 0.9-0.13, no spender table) and run the real migrate first.", TB),
 }
